@@ -62,7 +62,8 @@ def det_schema(draw) -> M.Schema:
     structs = [x.name for x in s.structs]
     taken = {(i.eff_name, i.protocol) for i in s.impls}
     for _ in range(draw(st.integers(0, 3))):
-        proto = draw(st.sampled_from(["uart", "lin", "eth", "spi"]))
+        # incl. protocol names that differ only in letter case from another one (separate protocols, separate files)
+        proto = draw(st.sampled_from(["uart", "lin", "eth", "spi", "CAN", "Can", "UART", "Uart", "uart"]))
         target = draw(st.sampled_from(structs))
         if (target, proto) in taken:
             continue
